@@ -18,9 +18,10 @@ use linfa_preprocessing::tf_idf_vectorization::{TfIdfMethod, TfIdfVectorizer};
 use linfa_preprocessing::{CountVectorizer, CountVectorizerParams, CountVectorizerValidParams, Tokenizer};
 use lvmc_core::enumerate as en;
 use lvmc_core::{close, guarded, json, par_sweep, Ctx, Level, Value, Violation};
-use ndarray::{Array1, Array2};
+use ndarray::{s, Array1, Array2, ArrayView1, Axis};
 use reference::{DocRef, RefCache};
 use serde::{Deserialize, Serialize};
+use std::cell::RefCell;
 use std::collections::{BTreeMap, BTreeSet, HashSet};
 use std::sync::atomic::{AtomicU64, Ordering};
 
@@ -31,6 +32,7 @@ use std::sync::atomic::{AtomicU64, Ordering};
 const CAP_ACCEPT_DOCUMENT_FREQUENCY_RANK: bool = true;
 
 const SIG_MIN_DF_FLOOR: &str = "countvectorizer.fit.min_df_floor_admits_entry_below_minimum_frequency";
+const SIG_FN_THEN_REGEX: &str = "countvectorizer.params.regex_tokenizer_set_after_function_tokenizer_is_ignored";
 const SIG_CAP_BY_DF: &str = "countvectorizer.fit.max_features_ranked_by_document_frequency_not_term_frequency";
 
 #[derive(Clone, Debug, Serialize, Deserialize, PartialEq)]
@@ -56,6 +58,139 @@ struct Case {
     probes: Vec<Vec<String>>,
     /// idf methods to run through TfIdfVectorizer ("smooth" | "nonsmooth" | "textbook")
     tfidf: Vec<String>,
+    /// memory layout of the document array handed to fit / to transform (see `with_layout`)
+    #[serde(default = "owned")]
+    fit_layout: String,
+    #[serde(default = "owned")]
+    transform_layout: String,
+    /// when present: `settings` were reached by moving a params object that was built (and fitted /
+    /// validated once) at `history.from` with the differing setters only
+    #[serde(default)]
+    history: Option<History>,
+}
+
+fn owned() -> String {
+    "owned".to_string()
+}
+
+#[derive(Clone, Debug, Serialize, Deserialize, PartialEq)]
+struct History {
+    from: Settings,
+    /// "fit" | "check_ref": what was done with the object while it was at `from`
+    first_step: String,
+    /// "same" | "clone": the moved object is the validated one itself / a clone of it
+    object: String,
+}
+
+/// Context of the case being run on this thread (layouts, history): read by the three call sites
+/// into linfa and by `case_json`, set by `run_case` and by the layout / history sweeps. A sweep item
+/// runs start to end on one thread, so this is deterministic.
+#[derive(Clone, Debug)]
+struct Xtra {
+    fit_layout: &'static str,
+    transform_layout: &'static str,
+    history: Option<History>,
+}
+
+thread_local! {
+    static XTRA: RefCell<Xtra> = RefCell::new(Xtra { fit_layout: "owned", transform_layout: "owned", history: None });
+}
+
+fn static_layout(name: &str) -> &'static str {
+    LAYOUTS.iter().copied().find(|l| *l == name).unwrap_or_else(|| panic!("unknown layout {}", name))
+}
+fn set_xtra(fit_layout: &str, transform_layout: &str, history: Option<History>) {
+    XTRA.with(|x| *x.borrow_mut() = Xtra { fit_layout: static_layout(fit_layout), transform_layout: static_layout(transform_layout), history });
+}
+fn xtra() -> Xtra {
+    XTRA.with(|x| x.borrow().clone())
+}
+/// (fit layout, transform layout) of the case being run on this thread.
+fn layouts() -> (&'static str, &'static str) {
+    XTRA.with(|x| {
+        let x = x.borrow();
+        (x.fit_layout, x.transform_layout)
+    })
+}
+
+const LAYOUTS: [&str; 7] = [
+    "owned",
+    "reversed_view_of_reversed_copy",
+    "inverted_axis_of_reversed_copy",
+    "every_second_of_interleaved",
+    "every_second_reversed_of_interleaved",
+    "sub_range",
+    "reversed_sub_range_of_reversed_copy",
+];
+const FILLER: &str = "zz filler aa bb";
+
+/// Builds a backing array and hands `f` a view whose LOGICAL content is `docs` in order, in the
+/// requested memory layout (negative strides, non-unit strides, offsets into a larger array).
+fn with_layout<R>(layout: &str, docs: &[String], f: impl FnOnce(ArrayView1<String>) -> R) -> R {
+    let n = docs.len();
+    let rev: Vec<String> = docs.iter().rev().cloned().collect();
+    let filler = || FILLER.to_string();
+    match layout {
+        "owned" => {
+            let a = Array1::from(docs.to_vec());
+            f(a.view())
+        }
+        "reversed_view_of_reversed_copy" => {
+            let a = Array1::from(rev);
+            let v = a.slice(s![..;-1]);
+            assert!(v.iter().eq(docs.iter()));
+            f(v)
+        }
+        "inverted_axis_of_reversed_copy" => {
+            let a = Array1::from(rev);
+            let mut v = a.view();
+            v.invert_axis(Axis(0));
+            assert!(v.iter().eq(docs.iter()));
+            f(v)
+        }
+        "every_second_of_interleaved" => {
+            let mut b = Vec::new();
+            for d in docs {
+                b.push(d.clone());
+                b.push(filler());
+            }
+            let a = Array1::from(b);
+            let v = a.slice(s![..;2]);
+            assert!(v.iter().eq(docs.iter()));
+            f(v)
+        }
+        "every_second_reversed_of_interleaved" => {
+            let mut b = Vec::new();
+            for d in &rev {
+                b.push(filler());
+                b.push(d.clone());
+            }
+            let a = Array1::from(b);
+            let v = a.slice(s![..;-2]);
+            assert!(v.iter().eq(docs.iter()));
+            f(v)
+        }
+        "sub_range" => {
+            let mut b = vec![filler()];
+            b.extend(docs.iter().cloned());
+            b.push(filler());
+            let a = Array1::from(b);
+            let v = a.slice(s![1..n + 1]);
+            assert!(v.iter().eq(docs.iter()));
+            f(v)
+        }
+        "reversed_sub_range_of_reversed_copy" => {
+            let mut b = vec![filler()];
+            b.extend(rev.iter().cloned());
+            b.push(filler());
+            b.push(filler());
+            let a = Array1::from(b);
+            let v = a.slice(s![1..n + 1;-1]);
+            assert!(v.iter().eq(docs.iter()));
+            f(v)
+        }
+        _ => panic!("unknown layout {}", layout),
+    }
 }
 
 static T_FIT: AtomicU64 = AtomicU64::new(0);
@@ -147,6 +282,11 @@ struct Stats {
     nontrivial: u64,
     fits: u64,
     primary_cases: u64,
+    layout_cases: u64,
+    layout_cases_negative_stride: u64,
+    histories: u64,
+    history_moves: u64,
+    history_pairs_not_reachable_by_setters: u64,
     transforms: u64,
     tfidf_transforms: u64,
     window_boundary_cases: u64,
@@ -170,6 +310,11 @@ impl Stats {
         self.nontrivial += o.nontrivial;
         self.fits += o.fits;
         self.primary_cases += o.primary_cases;
+        self.layout_cases += o.layout_cases;
+        self.layout_cases_negative_stride += o.layout_cases_negative_stride;
+        self.histories += o.histories;
+        self.history_moves += o.history_moves;
+        self.history_pairs_not_reachable_by_setters += o.history_pairs_not_reachable_by_setters;
         self.transforms += o.transforms;
         self.tfidf_transforms += o.tfidf_transforms;
         self.window_boundary_cases += o.window_boundary_cases;
@@ -196,12 +341,11 @@ fn case_json(family: &str, s: &Settings, fixed: Option<&[String]>, train: &[Stri
         train: train.to_vec(),
         probes: probe.map(|p| vec![p.to_vec()]).unwrap_or_default(),
         tfidf: tfidf.map(|m| vec![m.to_string()]).unwrap_or_default(),
+        fit_layout: xtra().fit_layout.to_string(),
+        transform_layout: xtra().transform_layout.to_string(),
+        history: xtra().history,
     })
     .unwrap()
-}
-
-fn to_array(docs: &[String]) -> Array1<String> {
-    Array1::from(docs.to_vec())
 }
 
 /// Is `v` an admissible vocabulary for the admitted set `adm` under cap `k`, ranking by `rank`?
@@ -243,13 +387,28 @@ fn check_fit(
 ) -> Option<Fitted> {
     st.evals += 1;
     st.fits += 1;
-    let cj = || case_json(family, s, fixed, train, None, None);
     let t0 = std::time::Instant::now();
     let fitted = match fixed {
-        None => guarded(|| valid.fit(&to_array(train))),
+        None => guarded(|| with_layout(layouts().0, train, |v| valid.fit(&v))),
         Some(words) => guarded(|| valid.fit_vocabulary(words)),
     };
     T_FIT.fetch_add(t0.elapsed().as_nanos() as u64, Ordering::Relaxed);
+    check_fitted(family, s, fitted, fixed, train, cache, st, viols)
+}
+
+/// Compares the outcome of a fit (however the params object was obtained) with the reference.
+#[allow(clippy::too_many_arguments)]
+fn check_fitted(
+    family: &str,
+    s: &Settings,
+    fitted: Result<linfa_preprocessing::Result<CountVectorizer>, String>,
+    fixed: Option<&[String]>,
+    train: &[String],
+    cache: &mut RefCache,
+    st: &mut Stats,
+    viols: &mut Vec<Violation>,
+) -> Option<Fitted> {
+    let cj = || case_json(family, s, fixed, train, None, None);
     let cv = match fitted {
         Ok(Ok(cv)) => cv,
         Ok(Err(e)) => {
@@ -464,7 +623,7 @@ fn check_transform(
     let cj = || case_json(family, s, fixed, train, if is_probe { Some(corpus) } else { None }, None);
     let which = if is_probe { "unseen corpus" } else { "training corpus" };
     let t0 = std::time::Instant::now();
-    let r = guarded(|| f.cv.transform(&to_array(corpus)).map(|m| m.to_dense()));
+    let r = guarded(|| with_layout(layouts().1, corpus, |v| f.cv.transform(&v).map(|m| m.to_dense())));
     T_TR.fetch_add(t0.elapsed().as_nanos() as u64, Ordering::Relaxed);
     let dense: Array2<usize> = match r {
         Ok(Ok(m)) => m,
@@ -532,7 +691,17 @@ fn check_transform(
         let mut got_cols: Vec<Vec<usize>> = (0..vocab.len()).map(|j| (0..docs.len()).map(|i| dense[(i, j)]).collect()).collect();
         exp_cols.sort();
         got_cols.sort();
-        let sig = if exp_cols == got_cols { "countvectorizer.transform.column_is_not_its_vocabulary_item" } else { "countvectorizer.transform.wrong_count" };
+        let mut exp_rows: Vec<Vec<usize>> = docs.iter().map(|d| vocab.iter().map(|w| d.counts.get(w).cloned().unwrap_or(0)).collect()).collect();
+        let mut got_rows: Vec<Vec<usize>> = (0..docs.len()).map(|i| (0..vocab.len()).map(|j| dense[(i, j)]).collect()).collect();
+        exp_rows.sort();
+        got_rows.sort();
+        let sig = if exp_rows == got_rows {
+            "countvectorizer.transform.row_is_not_its_document"
+        } else if exp_cols == got_cols {
+            "countvectorizer.transform.column_is_not_its_vocabulary_item"
+        } else {
+            "countvectorizer.transform.wrong_count"
+        };
         viols.push(Violation::new(
             sig,
             format!(
@@ -569,14 +738,31 @@ fn check_tfidf(
     st: &mut Stats,
     viols: &mut Vec<Violation>,
 ) {
-    let cj0 = || case_json(family, s, fixed, train, None, Some(method));
     let t = build_tfidf(s, method);
-    st.evals += 1;
-    st.fits += 1;
     let fit_result = match fixed {
-        None => guarded(|| t.fit(&to_array(train))),
+        None => guarded(|| with_layout(layouts().0, train, |v| t.fit(&v))),
         Some(words) => guarded(|| t.fit_vocabulary(words)),
     };
+    check_tfidf_fitted(family, s, method, fit_result, fixed, train, count_vocab_sorted, probes, cache, st, viols)
+}
+
+#[allow(clippy::too_many_arguments)]
+fn check_tfidf_fitted(
+    family: &str,
+    s: &Settings,
+    method: &str,
+    fit_result: Result<linfa_preprocessing::Result<linfa_preprocessing::tf_idf_vectorization::FittedTfIdfVectorizer>, String>,
+    fixed: Option<&[String]>,
+    train: &[String],
+    count_vocab_sorted: &[String],
+    probes: &[&[String]],
+    cache: &mut RefCache,
+    st: &mut Stats,
+    viols: &mut Vec<Violation>,
+) {
+    let cj0 = || case_json(family, s, fixed, train, None, Some(method));
+    st.evals += 1;
+    st.fits += 1;
     let fitted = match fit_result {
         Ok(Ok(f)) => f,
         Ok(Err(e)) => {
@@ -613,7 +799,7 @@ fn check_tfidf(
         st.tfidf_transforms += 1;
         let cj = || case_json(family, s, fixed, train, if is_probe { Some(corpus) } else { None }, Some(method));
         let which = if is_probe { "unseen corpus" } else { "training corpus" };
-        let dense: Array2<f64> = match guarded(|| fitted.transform(&to_array(corpus)).map(|m| m.to_dense())) {
+        let dense: Array2<f64> = match guarded(|| with_layout(layouts().1, corpus, |v| fitted.transform(&v).map(|m| m.to_dense()))) {
             Ok(Ok(m)) => m,
             Ok(Err(e)) => {
                 viols.push(Violation::new("tfidf.transform.unexpected_error", format!("transform of the {} returned Err({})", which, e), cj()));
@@ -656,8 +842,27 @@ fn check_tfidf(
             st.nontrivial += 1;
         }
         if let Some((di, w, want, got, c, df)) = bad {
+            // are the observed rows the expected rows in another order?
+            let q = |x: f64| (x * 1e9).round() as i64;
+            let mut exp_rows: Vec<Vec<i64>> = docs
+                .iter()
+                .map(|d| {
+                    vocab
+                        .iter()
+                        .map(|w| {
+                            let c = d.counts.get(w).cloned().unwrap_or(0);
+                            let dfw = docs.iter().filter(|d| d.counts.contains_key(w)).count();
+                            if c == 0 { 0 } else { q(c as f64 * ref_idf(method, n, dfw)) }
+                        })
+                        .collect()
+                })
+                .collect();
+            let mut got_rows: Vec<Vec<i64>> = (0..n).map(|i| (0..vocab.len()).map(|j| q(dense[(i, j)])).collect()).collect();
+            exp_rows.sort();
+            got_rows.sort();
+            let sig = if exp_rows == got_rows { "tfidf.transform.row_is_not_its_document" } else { "tfidf.transform.wrong_value" };
             viols.push(Violation::new(
-                "tfidf.transform.wrong_value",
+                sig,
                 format!(
                     "{} ({} documents), method {}: document {} = {:?}, item {:?}: count {} x idf(n={}, df={}) = {} expected, got {}",
                     which, n, method, di, corpus[di], w, c, n, df, want, got
@@ -677,6 +882,22 @@ fn run_case(case: &Case, viols: &mut Vec<Violation>) -> Stats {
     }
     let mut cache = RefCache::default();
     let s = &case.settings;
+    if let Some(h) = &case.history {
+        let mut cache_a = RefCache::default();
+        let empty: Vec<String> = Vec::new();
+        let probe = case.probes.first().unwrap_or(&empty);
+        run_history(&case.family, &h.from, s, &h.first_step, &h.object, &case.train, probe, &mut cache_a, &mut cache, &mut st, viols);
+        return st;
+    }
+    set_xtra(&case.fit_layout, &case.transform_layout, None);
+    let st = run_plain_case(case, &mut cache, st, viols);
+    set_xtra("owned", "owned", None);
+    st
+}
+
+fn run_plain_case(case: &Case, cache: &mut RefCache, mut st: Stats, viols: &mut Vec<Violation>) -> Stats {
+    let cache = &mut *cache;
+    let s = &case.settings;
     let valid = match guarded(|| build_params(s).check()) {
         Ok(Ok(v)) => v,
         Ok(Err(e)) => {
@@ -689,20 +910,265 @@ fn run_case(case: &Case, viols: &mut Vec<Violation>) -> Stats {
         }
     };
     let fixed = case.fixed_vocabulary.as_deref();
-    let Some(f) = check_fit(&case.family, s, &valid, fixed, &case.train, &mut cache, &mut st, viols) else {
+    let Some(f) = check_fit(&case.family, s, &valid, fixed, &case.train, cache, &mut st, viols) else {
         return st;
     };
     if fixed.is_none() {
-        check_transform(&case.family, s, fixed, &case.train, &f, &case.train, false, &mut cache, &mut st, viols);
+        check_transform(&case.family, s, fixed, &case.train, &f, &case.train, false, cache, &mut st, viols);
     }
     for p in &case.probes {
-        check_transform(&case.family, s, fixed, &case.train, &f, p, true, &mut cache, &mut st, viols);
+        check_transform(&case.family, s, fixed, &case.train, &f, p, true, cache, &mut st, viols);
     }
     let probes: Vec<&[String]> = case.probes.iter().map(|p| p.as_slice()).collect();
     for m in &case.tfidf {
-        check_tfidf(&case.family, s, m, fixed, &case.train, &f.vocab_sorted, &probes, &mut cache, &mut st, viols);
+        check_tfidf(&case.family, s, m, fixed, &case.train, &f.vocab_sorted, &probes, cache, &mut st, viols);
     }
     st
+}
+
+// ---------------------------------------------------------------------------------------------
+// History dimension: a params object is a small state machine (expression string, compiled-regex
+// slot, function pointer, deserialisation guard ...). A history = build at A, validate (fit or
+// check_ref), move the SAME object or a CLONE to B with the differing setters only, fit again.
+// Oracle: after the move the object must behave exactly like a freshly built params object at B,
+// i.e. like the reference model at B; the original of a clone must still behave like A.
+// ---------------------------------------------------------------------------------------------
+
+fn explicit_tokenizer(name: &str) -> Tokenizer {
+    match subject_tokenizer(name) {
+        Some(t) => t,
+        None => Tokenizer::Regex(r"\b\w\w+\b".to_string()), // the documented default expression
+    }
+}
+
+/// Can B be reached from A with the public setters? (`stopwords` cannot be unset.)
+fn reachable(a: &Settings, b: &Settings) -> bool {
+    a != b && !(a.stopwords.is_some() && b.stopwords.is_none())
+}
+
+/// Applies only the setters whose value differs between `a` and `b` (same names on
+/// `CountVectorizerParams` and `TfIdfVectorizer`). Returns the moved object and the number of setters.
+macro_rules! move_to {
+    ($obj:expr, $a:expr, $b:expr, $moves:expr) => {{
+        let (a, b): (&Settings, &Settings) = ($a, $b);
+        let mut p = $obj;
+        if a.lowercase != b.lowercase {
+            p = p.convert_to_lowercase(b.lowercase);
+            $moves += 1;
+        }
+        if a.normalize != b.normalize {
+            p = p.normalize(b.normalize);
+            $moves += 1;
+        }
+        if a.ngram != b.ngram {
+            p = p.n_gram_range(b.ngram.0, b.ngram.1);
+            $moves += 1;
+        }
+        if a.df != b.df {
+            p = p.document_frequency(b.df.0 as f32, b.df.1 as f32);
+            $moves += 1;
+        }
+        if a.max_features != b.max_features {
+            p = p.max_features(b.max_features);
+            $moves += 1;
+        }
+        if a.stopwords != b.stopwords {
+            p = p.stopwords(b.stopwords.as_ref().expect("reachable() filtered this"));
+            $moves += 1;
+        }
+        if a.tokenizer != b.tokenizer {
+            p = p.tokenizer(explicit_tokenizer(&b.tokenizer));
+            $moves += 1;
+        }
+        p
+    }};
+}
+
+#[allow(clippy::too_many_arguments)]
+fn run_history(
+    family: &str,
+    a: &Settings,
+    b: &Settings,
+    first_step: &str,
+    object: &str,
+    train: &[String],
+    probe: &[String],
+    cache_a: &mut RefCache,
+    cache_b: &mut RefCache,
+    st: &mut Stats,
+    viols: &mut Vec<Violation>,
+) {
+    st.histories += 1;
+    let h = History { from: a.clone(), first_step: first_step.to_string(), object: object.to_string() };
+    set_xtra("owned", "owned", Some(h));
+    let canonical = case_json(family, b, None, train, Some(probe), Some("smooth"));
+    let mut tmp: Vec<Violation> = Vec::new();
+    let mut moves = 0u64;
+    // ---- count vectoriser ----
+    let p = build_params(a);
+    match first_step {
+        "fit" => {
+            let r = guarded(|| with_layout("owned", train, |v| p.fit(&v)));
+            let mut t1 = Vec::new();
+            check_fitted(family, a, r, None, train, cache_a, st, &mut t1);
+            for mut v in t1 {
+                v.sig = format!("first_fit.{}", v.sig);
+                tmp.push(v);
+            }
+        }
+        "check_ref" => {
+            st.evals += 1;
+            match guarded(|| p.check_ref().map(|_| ())) {
+                Ok(Ok(())) => {}
+                Ok(Err(e)) => tmp.push(Violation::new("first_check.valid_settings_rejected", format!("check_ref() of in-domain settings {:?} returned Err({})", a, e), Value::Null)),
+                Err(m) => tmp.push(Violation::new("first_check.panic", format!("check_ref() panicked: {}", m), Value::Null)),
+            }
+        }
+        _ => panic!("unknown first step"),
+    }
+    let (q, original) = if object == "clone" { (p.clone(), Some(p)) } else { (p, None) };
+    let q = move_to!(q, a, b, moves);
+    st.history_moves += moves;
+    let r2 = guarded(|| with_layout("owned", train, |v| q.fit(&v)));
+    let mut t2 = Vec::new();
+    let fb = check_fitted(family, b, r2, None, train, cache_b, st, &mut t2);
+    if let Some(f) = &fb {
+        check_transform(family, b, None, train, f, train, false, cache_b, st, &mut t2);
+        check_transform(family, b, None, train, f, probe, true, cache_b, st, &mut t2);
+    }
+    // closed form of a known shape: a regex tokenizer set after a function tokenizer is ignored, i.e. the
+    // moved object behaves exactly like B with A's tokenizer function still in place
+    let fn_to_regex = a.tokenizer.starts_with("fn:") && !b.tokenizer.starts_with("fn:");
+    let mut b_stale = b.clone();
+    b_stale.tokenizer = a.tokenizer.clone();
+    let mut stale_fn_confirmed = false;
+    if fn_to_regex && !t2.is_empty() {
+        let mut scratch_st = Stats::default();
+        let mut scratch = Vec::new();
+        let mut cache_s = RefCache::default();
+        let r = guarded(|| with_layout("owned", train, |v| q.fit(&v)));
+        if let Some(f) = check_fitted(family, &b_stale, r, None, train, &mut cache_s, &mut scratch_st, &mut scratch) {
+            check_transform(family, &b_stale, None, train, &f, train, false, &mut cache_s, &mut scratch_st, &mut scratch);
+            check_transform(family, &b_stale, None, train, &f, probe, true, &mut cache_s, &mut scratch_st, &mut scratch);
+            stale_fn_confirmed = scratch.is_empty();
+        }
+    }
+    if stale_fn_confirmed {
+        let first = t2.remove(0);
+        t2.clear();
+        tmp.push(Violation::new(
+            SIG_FN_THEN_REGEX,
+            format!(
+                "params object built with tokenizer {:?} and then given .tokenizer(Tokenizer::Regex(..)) for {:?} ({}, {}): the regex is ignored, vocabulary and counts are exactly those of the function tokenizer still in place; e.g. {}",
+                a.tokenizer,
+                b.tokenizer,
+                if first_step == "fit" { "fitted once before" } else { "validated once before" },
+                if object == "clone" { "clone moved" } else { "same object moved" },
+                first.what
+            ),
+            Value::Null,
+        ));
+    }
+    for mut v in t2 {
+        v.sig = format!("after_move.{}", v.sig);
+        v.what = format!("params object built at {:?}, {} once, then {} moved to {:?} with the differing setters: it does not behave like a fresh object at the new settings: {}", a, if first_step == "fit" { "fitted" } else { "validated (check_ref)" }, if object == "clone" { "a clone of it" } else { "the same object" }, b, v.what);
+        tmp.push(v);
+    }
+    if let Some(orig) = original {
+        // the original of the clone must be untouched by what happened to the clone
+        let r3 = guarded(|| with_layout("owned", train, |v| orig.fit(&v)));
+        let mut t3 = Vec::new();
+        check_fitted(family, a, r3, None, train, cache_a, st, &mut t3);
+        for mut v in t3 {
+            v.sig = format!("original_after_clone_moved.{}", v.sig);
+            tmp.push(v);
+        }
+    }
+    // ---- tf-idf vectoriser (wraps the same params) ----
+    if let Some(f) = &fb {
+        let t = build_tfidf(a, "smooth");
+        st.evals += 1;
+        match guarded(|| with_layout("owned", train, |v| t.fit(&v).map(|_| ()))) {
+            Ok(Ok(())) => {}
+            Ok(Err(e)) => tmp.push(Violation::new("first_fit.tfidf.fit.unexpected_error", format!("tf-idf fit at {:?} returned Err({})", a, e), Value::Null)),
+            Err(m) => tmp.push(Violation::new("first_fit.tfidf.fit.panic", format!("tf-idf fit at {:?} panicked: {}", a, m), Value::Null)),
+        }
+        let t2v = if object == "clone" { t.clone() } else { t };
+        let mut m2 = 0u64;
+        let t2v = move_to!(t2v, a, b, m2);
+        st.history_moves += m2;
+        let r = guarded(|| with_layout("owned", train, |v| t2v.fit(&v)));
+        let mut t4 = Vec::new();
+        check_tfidf_fitted(family, b, "smooth", r, None, train, &f.vocab_sorted, &[probe], cache_b, st, &mut t4);
+        if stale_fn_confirmed && !t4.is_empty() {
+            // same closed form through the tf-idf wrapper
+            let mut scratch_st = Stats::default();
+            let mut scratch = Vec::new();
+            let mut cache_s = RefCache::default();
+            let r = guarded(|| with_layout("owned", train, |v| t2v.fit(&v)));
+            check_tfidf_fitted(family, &b_stale, "smooth", r, None, train, &f.vocab_sorted, &[probe], &mut cache_s, &mut scratch_st, &mut scratch);
+            if scratch.is_empty() {
+                t4.clear();
+            }
+        }
+        for mut v in t4 {
+            v.sig = format!("after_move.{}", v.sig);
+            v.what = format!("TfIdfVectorizer built at {:?}, fitted once, then {} moved to {:?}: {}", a, if object == "clone" { "a clone of it" } else { "the same object" }, b, v.what);
+            tmp.push(v);
+        }
+    }
+    for mut v in tmp {
+        v.sig = format!("history.{}", v.sig);
+        v.case = canonical.clone();
+        viols.push(v);
+    }
+    set_xtra("owned", "owned", None);
+}
+
+fn history_menu() -> Vec<Settings> {
+    let d = default_settings();
+    let with = |f: &dyn Fn(&mut Settings)| {
+        let mut s = d.clone();
+        f(&mut s);
+        s
+    };
+    vec![
+        d.clone(),
+        with(&|s| s.tokenizer = "re:ascii_letters".into()),
+        with(&|s| s.tokenizer = "re:nonspace".into()),
+        with(&|s| s.tokenizer = "fn:split_semicolon".into()),
+        with(&|s| s.tokenizer = "fn:split_space".into()),
+        with(&|s| s.lowercase = false),
+        with(&|s| s.ngram = (1, 2)),
+        with(&|s| s.stopwords = Some(vec!["aa".into()])),
+        with(&|s| s.df = (0.5, 1.0)),
+        with(&|s| {
+            s.tokenizer = "re:nonspace".into();
+            s.lowercase = false;
+            s.ngram = (1, 2);
+        }),
+        with(&|s| {
+            s.tokenizer = "re:ascii_letters".into();
+            s.stopwords = Some(vec!["bb".into()]);
+            s.max_features = Some(2);
+        }),
+        with(&|s| s.normalize = false),
+    ]
+}
+
+fn history_corpora() -> Vec<Vec<String>> {
+    let c = |v: &[&str]| v.iter().map(|x| x.to_string()).collect::<Vec<String>>();
+    vec![
+        c(&["aa x Bb", "Bb, aa;cc"]),
+        c(&["a b;aa", "aa aa bb", "Aa;bb x"]),
+        c(&["\u{e9}e aa", "e\u{301}e;aa bb", "bb"]),
+        c(&["aa-bb cc", "cc;aa-bb", "", "aa"]),
+        c(&["aa bb aa bb", "bb aa"]),
+    ]
+}
+
+fn history_probe() -> Vec<String> {
+    vec!["bb;aa x".to_string(), "Aa aa, cc".to_string(), "dd \u{e9}e".to_string()]
 }
 
 /// Family E: `compute_idf` against the documented formulas on the whole (n, df) grid.
@@ -788,6 +1254,60 @@ fn run_item(it: &Item, viols: &mut Vec<Violation>) -> Stats {
         }
     };
     let mut seen: HashSet<Vec<String>> = HashSet::new();
+    if it.family == "H_history" {
+        let menu = history_menu();
+        let probe = history_probe();
+        let mut cache_b = RefCache::default();
+        for b in &menu {
+            if !reachable(s, b) {
+                if s != b {
+                    st.history_pairs_not_reachable_by_setters += 1;
+                }
+                continue;
+            }
+            for first in ["fit", "check_ref"] {
+                for object in ["same", "clone"] {
+                    for train in it.corpora.iter() {
+                        st.primary_cases += 1;
+                        run_history(it.family, s, b, first, object, train, &probe, &mut cache, &mut cache_b, &mut st, viols);
+                    }
+                }
+            }
+        }
+        return st;
+    }
+    if it.family == "L_layouts" {
+        let probes: Vec<&[String]> = Vec::new();
+        let _ = probes;
+        for train in it.corpora.iter() {
+            let mut probe = train.clone();
+            if !probe.is_empty() {
+                probe.rotate_left(1);
+            }
+            probe.push("bb aa cc".to_string());
+            for fl in LAYOUTS {
+                for tl in LAYOUTS {
+                    set_xtra(fl, tl, None);
+                    st.primary_cases += 1;
+                    st.layout_cases += 1;
+                    if fl.contains("reversed") || fl.contains("inverted") || tl.contains("reversed") || tl.contains("inverted") {
+                        st.layout_cases_negative_stride += 1;
+                    }
+                    let Some(f) = check_fit(it.family, s, &valid, None, train, &mut cache, &mut st, viols) else { continue };
+                    check_transform(it.family, s, None, train, &f, train, false, &mut cache, &mut st, viols);
+                    check_transform(it.family, s, None, train, &f, &probe, true, &mut cache, &mut st, viols);
+                    // tf-idf (every fit compiles the regex again, ~1 ms): equal layouts and owned x any layout
+                    if fl == tl || fl == "owned" || tl == "owned" {
+                        for m in &it.tfidf {
+                            check_tfidf(it.family, s, m, None, train, &f.vocab_sorted, &[probe.as_slice()], &mut cache, &mut st, viols);
+                        }
+                    }
+                }
+            }
+        }
+        set_xtra("owned", "owned", None);
+        return st;
+    }
     if !it.fixed.is_empty() {
         // family D: fixed vocabularies, the pool is the unseen corpus
         for words in it.fixed.iter() {
@@ -862,14 +1382,18 @@ fn main() {
         "sweep items = settings values; per item every training corpus of the family is fitted (vocabulary vs reference), transformed \
          (every cell vs recount), and every NEW fitted vocabulary of the item is also applied to the family's whole document pool as one unseen corpus. \
          A tokenisation: docs = all token sequences of length 0..3 over {aa,Aa,bb,e+U+0301+e,U+00E9+e,U+00C9+e} x separators {' ',', ',';'} x optional \
-         one-letter noise token; corpora = every single document + every ordered pair of the length<=2/space/no-noise documents; settings = \
+         one-letter noise token; corpora = every single document + every ordered pair of the length<=2 (quick: length<=1) space/no-noise documents; settings = \
          lowercase x normalise x 5 tokenisers (default regex, [a-zA-Z]+, \\S+, fn split(' '), fn split(';')) x 6 n-gram ranges. \
-         B filtering: docs = all sequences of length 0..3 over {aa,bb,cc}; corpora = the empty corpus, all ordered tuples of 1..2 docs, tuples of 3 (quick: docs of length<=2), \
+         B filtering: docs = all sequences of length 0..3 over {aa,bb,cc}; corpora = the empty corpus, all ordered tuples of 1..2 docs, tuples of 3 (quick: docs of length<=2 over {aa,bb}), \
          tuples of 4 over length<=1 docs, thorough also over {aa,bb} length<=2 docs, tokenised by a split_whitespace function; the same grid (quick: without n-gram ranges (2,3),(3,3)) with the default regex over a smaller corpus list \
          (singles, pairs (quick: of length<=2 docs), triples of length<=1 docs, thorough also 4-tuples of length<=1 docs); settings = 6 n-gram ranges x stop words {none,{aa},{aa bb}} x all 15 \
          windows min<=max over {0,.25,.5,.75,1} x caps {None,1,2} (thorough also 3). C tf-idf: 3 idf methods x n-gram {(1,1),(1,2)} x windows {(0,1),(.5,1)} x training corpora x \
          all unseen corpora of 1..2 pool documents (+ fixed 3- and 4-document corpora). D fixed vocabularies: all word sequences of length 0..3 over 6 words (duplicates included) x \
          lowercase x normalise x 5 tokenisers x 4 n-gram ranges, transformed on the family-A pool and on the empty corpus (tf-idf, 3 methods, on the sub-grid lowercase+normalise, (1,2), {default, fn split(' ')}). E compute_idf on n<=12, 0<=df<=n. \
+         L layouts: the document array handed to fit and (independently) to transform is an owned array, a reversed view of a reversed copy, an inverted-axis view, every second element of an interleaved array \
+         (stride 2 and -2), a sub-range and a reversed sub-range of a padded array - 7 x 7 layout pairs with identical LOGICAL documents x corpora of 0..5 documents x 2 settings, count (all pairs) and tf-idf (equal layouts and owned x any): row d must belong to document d. \
+         H history: 12-settings menu (tokeniser regex / function, lowercase, normalise, n-gram, stop words, df window, cap); for every ordered pair (A,B) reachable with setters x {fit, check_ref at A} x {same object, clone} x 5 corpora: \
+         build at A, validate, apply only the differing setters, fit again; vocabulary, counts (training + unseen corpus) and tf-idf (TfIdfVectorizer moved the same way) must equal the reference at B, the original of a clone must still equal A. \
          evaluation = one oracle comparison of a whole fit (vocabulary) or of a whole transformed matrix; non-trivial = fit with >= 2 candidate n-grams and a non-empty admitted \
          set / transform where a document has >= 2 in-vocabulary items or both in- and out-of-vocabulary items / tf-idf matrix with an item of 0 < df < n. Distinct by construction of the enumerators.",
     );
@@ -877,6 +1401,7 @@ fn main() {
     ctx.assume("admitted = documented relation min <= df/n <= max evaluated as min*n <= df <= max*n; min, max in {0,.25,.5,.75,1} and n <= 4, so every product is exact in f32 and f64 (no rounding margin, nothing indeterminate)");
     ctx.assume("stop words exclude vocabulary ENTRIES (n-grams equal to a stop word), as the rustdoc says ('entries to be excluded from the generated vocabulary'); they are not removed from the token stream");
     ctx.assume("feature cap: any top-k set is accepted (any tie-break); ranking demanded = corpus term frequency, as documented ('top max_features (by term frequency)'); a top-k set by document frequency only is reported under its own narrow signature");
+    ctx.assume("layouts: every view has the same logical element sequence as the owned array (asserted in the harness before the call); history: the default tokeniser is re-selected with Tokenizer::Regex of the documented default expression; stop words cannot be unset through the public setters, such pairs are counted as not reachable");
     ctx.assume("vocabulary compared as a set; column j is identified through vocabulary()[j]; counts exact; tf-idf entries vs count x documented idf(n, df over the transformed corpus) at relative 1e-12");
     ctx.assume("idf methods NonSmooth / Textbook are selected through the crate's serde implementation because TfIdfVectorizer has no public setter for the method");
     ctx.assume("fixed vocabulary: settings are not applied to the given words (rustdoc: attributes ignored in fitting), documents are processed with the settings at transform time");
@@ -894,7 +1419,9 @@ fn main() {
     let docs_a_full = docs_over(&alpha_a, 3, &[" ", ", ", ";"], &[false, true]);
     let docs_a_small = docs_over(&alpha_a, 2, &[" "], &[false]);
     let mut corpora_a: Vec<Vec<String>> = docs_a_full.iter().map(|d| vec![d.clone()]).collect();
-    corpora_a.extend(tuples(&docs_a_small, 2));
+    // quick: ordered pairs of the length<=1 documents only
+    let docs_a_tiny = docs_over(&alpha_a, 1, &[" "], &[false]);
+    corpora_a.extend(tuples(if thorough { &docs_a_small } else { &docs_a_tiny }, 2));
     let pool_a: Vec<String> = if thorough { docs_over(&alpha_a, 2, &[" ", ", ", ";"], &[false, true]) } else { docs_a_small.clone() };
     let corpora_a = std::sync::Arc::new(corpora_a);
     let pool_a = std::sync::Arc::new(pool_a);
@@ -932,7 +1459,7 @@ fn main() {
     corpora_b.push(vec![]); // the empty corpus
     corpora_b.extend(tuples(&docs_b3, 1));
     corpora_b.extend(tuples(&docs_b3, 2));
-    corpora_b.extend(tuples(if thorough { &docs_b3 } else { &docs_b2 }, 3));
+    corpora_b.extend(tuples(if thorough { &docs_b3 } else { &docs_ab2 }, 3));
     corpora_b.extend(tuples(&docs_b1, 4));
     if thorough {
         corpora_b.extend(tuples(&docs_ab2, 4));
@@ -1068,6 +1595,62 @@ fn main() {
         }
     }
     ctx.extra("D_fixed_vocabularies", json!(fixed_d.len()));
+
+    // ---------------- family L (memory layout of the document arrays) ----------------
+    let mut corpora_l: Vec<Vec<String>> = Vec::new();
+    corpora_l.push(vec![]);
+    corpora_l.extend(tuples(&docs_b1, 1));
+    corpora_l.extend(tuples(if thorough { &docs_b2 } else { &docs_b1 }, 2));
+    if thorough {
+        corpora_l.extend(tuples(&docs_b1, 3));
+    }
+    corpora_l.push(vec!["aa".into(), "bb aa".into(), "cc".into()]);
+    corpora_l.push(vec!["".into(), "bb".into(), "bb".into()]);
+    corpora_l.push(vec!["aa bb".into(), "bb cc cc".into(), "".into(), "cc aa aa".into()]);
+    corpora_l.push(vec!["aa".into(), "bb".into(), "cc".into(), "aa bb".into(), "bb cc".into()]);
+    let corpora_l = std::sync::Arc::new(corpora_l);
+    for (tok, ng, tfidf) in [
+        ("fn:split_whitespace", (1usize, 2usize), if thorough { vec!["smooth", "nonsmooth", "textbook"] } else { vec!["smooth"] }),
+        ("default", (1, 1), if thorough { vec!["smooth", "nonsmooth", "textbook"] } else { vec!["smooth"] }),
+    ] {
+        for chunk in corpora_l.chunks(8) {
+            let chunk = std::sync::Arc::new(chunk.to_vec());
+            expected_cases += (chunk.len() * LAYOUTS.len() * LAYOUTS.len()) as u64;
+            items.push(Item {
+                family: "L_layouts",
+                settings: Settings { lowercase: true, normalize: true, ngram: ng, tokenizer: tok.into(), stopwords: None, df: (0.0, 1.0), max_features: None },
+                corpora: chunk,
+                pool: empty_pool.clone(),
+                probes: no_corpora.clone(),
+                tfidf: tfidf.iter().map(|m| m.to_string()).collect(),
+                fixed: no_corpora.clone(),
+            });
+        }
+    }
+    ctx.extra("L_corpora", json!(corpora_l.len()));
+    ctx.extra("L_layout_pairs_fit_x_transform", json!(LAYOUTS.len() * LAYOUTS.len()));
+
+    // ---------------- family H (history of a params object) ----------------
+    let menu = history_menu();
+    let corpora_h = std::sync::Arc::new(history_corpora());
+    let mut h_pairs = 0u64;
+    for a in &menu {
+        let reach = menu.iter().filter(|b| reachable(a, b)).count() as u64;
+        h_pairs += reach;
+        expected_cases += reach * 4 * corpora_h.len() as u64;
+        items.push(Item {
+            family: "H_history",
+            settings: a.clone(),
+            corpora: corpora_h.clone(),
+            pool: empty_pool.clone(),
+            probes: no_corpora.clone(),
+            tfidf: vec![],
+            fixed: no_corpora.clone(),
+        });
+    }
+    ctx.extra("H_settings_menu", json!(menu.len()));
+    ctx.extra("H_ordered_pairs_reachable_by_setters", json!(h_pairs));
+    ctx.extra("H_corpora", json!(corpora_h.len()));
     ctx.extra("sweep_items", json!(items.len()));
     ctx.extra("primary_cases_enumerated", json!(expected_cases));
 
@@ -1075,6 +1658,12 @@ fn main() {
     let total = std::sync::Mutex::new(Stats::default());
     let per_family: std::sync::Mutex<BTreeMap<String, (u64, u64, f64)>> = std::sync::Mutex::new(BTreeMap::new());
     let items_done = AtomicU64::new(0);
+    // cheap but structurally distinct families first
+    items.sort_by_key(|it| match it.family {
+        "H_history" => 0,
+        "L_layouts" => 1,
+        _ => 2,
+    });
     par_sweep(&ctx, "vectoriser sweep", &items, |it| {
         let mut v = Vec::new();
         let t0 = std::time::Instant::now();
@@ -1115,6 +1704,14 @@ fn main() {
         std::process::exit(2);
     }
     ctx.extra("count_transforms_checked", json!(t.transforms));
+    ctx.extra("layout_cases_fit_layout_x_transform_layout_x_corpus_x_settings", json!(t.layout_cases));
+    ctx.extra("layout_cases_with_a_negative_stride_view", json!(t.layout_cases_negative_stride));
+    ctx.extra("histories_run", json!(t.histories));
+    ctx.extra("history_setter_applications", json!(t.history_moves));
+    ctx.extra("history_pairs_not_reachable_by_setters", json!(t.history_pairs_not_reachable_by_setters));
+    // explicit-state view of family H: states = params objects (fresh at A, validated at A, moved to B as same / clone,
+    // original after its clone moved), transitions = validate / move / refit steps, traces = whole histories vs the reference
+    ctx.add_states(menu.len() as u64 * 3 + h_pairs * 2 * 2 + h_pairs * 2, t.histories * 3 + t.histories / 2, t.histories);
     ctx.extra("tfidf_transforms_checked", json!(t.tfidf_transforms));
     ctx.extra("per_family_evaluations_nontrivial_item_wall_seconds", json!(*per_family.lock().unwrap()));
     ctx.extra("window_cases_with_df_exactly_on_a_bound", json!(t.window_boundary_cases));
